@@ -14,7 +14,8 @@ abbrev Mat := List (List Rat)
 abbrev Vec := List Rat
 
 def absQ (r : Rat) : Rat := if r < 0 then -r else r
-def atol : Rat := (1 : Rat) / 100000000
+/-- the default tolerance `atol=1e-8` of `utils/tests.py`: the exact value of the double `1e-8` -/
+def atol : Rat := (3022314549036573 : Rat) / 302231454903657293676544
 
 def nrows (m : Mat) : Nat := m.length
 def entry (m : Mat) (i j : Nat) : Rat := (m.getD i []).getD j 0
